@@ -167,6 +167,11 @@ impl<'a> StmtIterator<'a> {
                     self.inner_state = StmtIteratorState::EndIterateInner(loop_state.take())
                 }
                 StmtIteratorState::StartLoop(loop_state) => {
+                    if loop_state.max <= 0 {
+                        // A loop with a non-positive bound does not run at all
+                        self.inner_state = StmtIteratorState::Iterate;
+                        continue;
+                    }
                     ctx.push_frame();
                     ctx.set(loop_state.variable, 0);
                     self.inner_state = StmtIteratorState::StartIterateInner(loop_state.take());
